@@ -8,14 +8,14 @@ import z3
 from vc.unit import CContract, register
 from vc.cvc.core import Obj, NULL, INT, F64, EXC, CSt
 from vc.cvc import api as A
+from spec import validators as S
 
 
 def spec_float_range(v, low, high, mask):
-    """v: FP term; low/high: Obj (None or float objects); mask: any Int, bit 0 = exclude low, bit 1 = exclude high"""
+    """v: FP term; low/high: Obj (None or float objects); mask: any Int, bit 0 = exclude low, bit 1 = exclude high.
+    The declared domain itself is S.in_float_range, the formula the Python BaseRange.float_validate is proved against."""
     exl, exh = (mask % 2) == 1, ((mask / 2) % 2) == 1
-    lo_ok = z3.Or(low == A.NONE, z3.If(exl, z3.fpLT(A.float_val(low), v), z3.fpLEQ(A.float_val(low), v)))
-    hi_ok = z3.Or(high == A.NONE, z3.If(exh, z3.fpGT(A.float_val(high), v), z3.fpGEQ(A.float_val(high), v)))
-    return z3.And(lo_ok, hi_ok)
+    return S.in_float_range(v, low == A.NONE, A.float_val(low), exl, high == A.NONE, A.float_val(high), exh)
 
 
 def wf_float_range_info(info):
@@ -216,9 +216,14 @@ class ValidateTraitSelfType(FastValidator):
     def spec(self, info, ret, st):
         tinfo, value, obj = info["tinfo"], info["value"], info["obj"]
         accept = z3.Or(z3.And(A.tuple_len(tinfo) == 2, value == A.NONE), A.subtype(A.type_of(value), A.type_of(obj)))
+        o = c_obs(info, ret, st)
+        o.inst = lambda x, tn: A.subtype(A.type_of(x), A.type_of(obj))          # tn = '<type(object)>'
+        # This() installs (self_type, None) and validates with This.validate_none; This(allow_none=False) installs
+        # (self_type,) and validates with This.validate: one shared spec, None allowed iff the descriptor has two items
         return [("post:accepts-iff-same-type-as-owner-or-allowed-None", (ret != NULL) == accept),
                 ("post:stores-the-value-itself", same_object(ret, value)),
-                ("post:rejection-is-TraitError", z3.Implies(ret == NULL, st.exc == EXC["TraitError"]))]
+                ("post:rejection-is-TraitError", z3.Implies(ret == NULL, st.exc == EXC["TraitError"]))] + \
+            shared(S.spec_instance_of(o, ["<type(object)>"], none_ok=z3.And(A.tuple_len(tinfo) == 2, value == A.NONE)))
 
 
 @register
@@ -253,6 +258,58 @@ class ValidateTraitMap(FastValidator):
                 ("post:rejection-is-TraitError", z3.Implies(ret == NULL, st.exc == EXC["TraitError"]))]
 
 
+# ---------------------------------------------------------------------------------------------
+# the per-kind specification shared with the Python validate methods (spec/validators.py)
+# ---------------------------------------------------------------------------------------------
+C_TYPES = {"int": "PyLong_Type", "float": "PyFloat_Type", "complex": "PyComplex_Type", "str": "PyUnicode_Type", "bytes": "PyBytes_Type", "bool": "PyBool_Type"}
+
+
+def c_obs(info, ret, st, conv_type_obj=None):
+    """the observation of one path of a compiled validator in the vocabulary of spec/validators.py"""
+    o = type("Obs", (), {})()
+    o.side = "c"
+    o.value = info["value"]
+    o.accepted = ret != NULL
+    rejected_by_error = z3.BoolVal(any(r[0] == "trait-error" for r in st.trace))
+    o.trait_error = z3.And(ret == NULL, st.exc == EXC["TraitError"], rejected_by_error)
+    o.propagated = z3.And(ret == NULL, z3.Not(z3.And(st.exc == EXC["TraitError"], rejected_by_error)))
+    o.result = ret
+    o.same = lambda a, b: a == b
+    o.exact = lambda x, tn: A.is_exact(x, C_TYPES[tn])
+    o.inst = lambda x, tn: A.is_inst(x, C_TYPES[tn])
+    o.is_none = lambda x: x == A.NONE
+    o.conv = []
+    for r in st.trace:
+        if r[0] == "proto":
+            _t, what, arg, ok, res, e = r
+            o.conv.append(S.Conv(what, arg, ok, result=res, is_type_error=(e == EXC["TypeError"]) if e is not None else None,
+                                 is_value_error=(e == EXC["ValueError"]) if e is not None else None, exc=e))
+    calls = [r for r in st.trace if r[0] == "call"]
+    for c in calls:
+        res, e = st.ghost.get("last_call_result"), st.ghost.get("last_call_exc")
+        ok = res is not None and c is calls[-1] or c is not calls[-1]
+        ev = S.Conv("call-type", A.tuple_item(c[2], z3.IntVal(0)), bool(ok), result=res if ok else None,
+                    is_type_error=(e == EXC["TypeError"]) if (not ok and e is not None) else None,
+                    is_value_error=(e == EXC["ValueError"]) if (not ok and e is not None) else None, exc=e if not ok else None)
+        ev.callee, ev.nargs = c[1], A.tuple_len(c[2])
+        o.conv.append(ev)
+
+    def carries(result, ev):
+        if ev.what == "float":
+            return z3.And(A.is_exact(result, "PyFloat_Type"), A.float_val(result) == ev.result)
+        return result == ev.result
+    o.carries = carries
+    o.error_is = lambda ev: st.exc == ev.exc          # the C model tracks the class of the pending exception
+    o.conv_type_is = lambda ev, tn: z3.And(ev.callee == conv_type_obj, ev.nargs == 1) if conv_type_obj is not None else z3.BoolVal(False)
+    o.equal_bool = lambda a, b: a == b
+    o.same_number = lambda a, b: A.float_val(a) == A.float_val(b)
+    return o
+
+
+def shared(clauses):
+    return [(n.replace("spec:", "post:spec:"),) + tuple(rest) for (n, *rest) in clauses]
+
+
 def float_result_clauses(info, ret, st):
     value = info["value"]
     exact = A.is_exact(value, "PyFloat_Type")
@@ -268,7 +325,8 @@ class ValidateTraitFloat(FastValidator):
     def spec(self, info, ret, st):
         value = info["value"]
         return float_result_clauses(info, ret, st) + [
-            ("post:every-exact-float-accepted", z3.Implies(A.is_exact(value, "PyFloat_Type"), ret == value))]
+            ("post:every-exact-float-accepted", z3.Implies(A.is_exact(value, "PyFloat_Type"), ret == value))] + \
+            shared(S.spec_float(c_obs(info, ret, st)))
 
     def covers(self, cx, ov, info):
         return [("accepts", lambda r, s: r != NULL), ("rejects-with-TraitError", lambda r, s: z3.And(r == NULL, s.exc == EXC["TraitError"])),
@@ -306,7 +364,8 @@ class ValidateTraitInteger(FastValidator):
         exact = A.is_exact(value, "PyLong_Type")
         return [("post:exact-int-stored-as-is", z3.Implies(exact, ret == value)),
                 ("post:result-has-exact-type-int", z3.Implies(ret != NULL, A.is_exact(ret, "PyLong_Type"))),
-                ("post:TypeError-of-the-conversion-becomes-TraitError", z3.Implies(ret == NULL, st.exc != EXC["TypeError"]))]
+                ("post:TypeError-of-the-conversion-becomes-TraitError", z3.Implies(ret == NULL, st.exc != EXC["TypeError"]))] + \
+            shared(S.spec_int(c_obs(info, ret, st)))
 
     def covers(self, cx, ov, info):
         return [("accepts", lambda r, s: r != NULL), ("rejects-with-TraitError", lambda r, s: z3.And(r == NULL, s.exc == EXC["TraitError"])),
@@ -343,7 +402,13 @@ class ValidateTraitCastType(FastValidator):
         return conversion_clauses(info, ret, st, T) + [
             ("post:value-of-exactly-the-type-stored-as-is", z3.Implies(exact, z3.And(ret == value, z3.BoolVal(not calls)))),
             ("post:anything-else-is-converted", z3.Implies(z3.Not(exact), z3.BoolVal(len(calls) == 1))),
-            ("post:failed-conversion-is-TraitError", z3.Implies(ret == NULL, st.exc == EXC["TraitError"]))]
+            ("post:failed-conversion-is-TraitError", z3.Implies(ret == NULL, st.exc == EXC["TraitError"]))] + \
+            shared(S.spec_cast(self.cast_obs(info, ret, st, T), "<T>", "all"))
+
+    def cast_obs(self, info, ret, st, T):
+        o = c_obs(info, ret, st, conv_type_obj=T)
+        o.exact = lambda x, tn: A.type_of(x) == T
+        return o
 
 
 @register
@@ -477,9 +542,13 @@ class ValidateTraitCallable(FastValidator):
         callable_ = z3.Function("callable_check", Obj, z3.BoolSort())(value)
         accept = z3.If(value == A.NONE, z3.Or(n < 2, truth == 1), info["callable"])
         undecided = z3.And(value == A.NONE, n >= 2, truth == -1)
+        o = c_obs(info, ret, st)
+        o.callable = lambda x: info["callable"]
+        # the descriptor Callable.__init__ builds is (callable, allow_none) with allow_none a bool: its truth is decided
+        sh = [(nm, z3.Implies(z3.And(n == 2, truth >= 0), g)) for (nm, g) in S.spec_callable(o, truth == 1)]
         return [("post:accepts-iff-callable-or-allowed-None", z3.Implies(z3.Not(undecided), (ret != NULL) == accept)),
                 ("post:stores-the-value-itself", same_object(ret, value)),
-                ("post:rejection-is-TraitError", z3.Implies(z3.And(ret == NULL, z3.Not(undecided)), st.exc == EXC["TraitError"]))]
+                ("post:rejection-is-TraitError", z3.Implies(z3.And(ret == NULL, z3.Not(undecided)), st.exc == EXC["TraitError"]))] + shared(sh)
 
     def c_setup(self, cx, ex, ov):
         st, args, info = FastValidator.c_setup(self, cx, ex, ov)
